@@ -200,6 +200,35 @@ def run_chain(backend, lines, model_ok=True):
     return impl, model
 
 
+def window_of(backend):
+    return int(backend[3:]) if backend.startswith("mem") and len(backend) > 3 else (2000 if backend == "mem" else None)
+
+
+def shrink(backend, seq, window):
+    """drop ops (never the init line) while the property oracle still fails on the real implementation"""
+    def run(s):
+        try:
+            o, _ = run_chain(backend, s, False)
+        except core.Broken:
+            return None, None
+        return o, (oracle_seq(s, o, window) if len(o) == len(s) else None)
+    cur = list(seq)
+    n = max(1, (len(cur) - 1) // 2)
+    while n >= 1:
+        i = 1
+        while i < len(cur):
+            cand = cur[:i] + cur[i + n:]
+            if len(cand) > 1 and run(cand)[1]:
+                cur = cand
+            else:
+                i += n
+        n //= 2
+    o, why = run(cur)
+    if not why:     # a race that does not show every time: keep the original
+        return seq, run(seq)[0], None
+    return cur, o, why
+
+
 def explore(ctx, res):
     rng = ctx["rng"]
     tier = "thorough" if ctx["deep"] else ctx["tier"]
@@ -208,7 +237,7 @@ def explore(ctx, res):
     diverged = None
     h = os.path.join(core.BUILD, "verifh")
     for backend in BACKENDS:
-        seqs = [gen_sequence(rng.fork(f"{backend}{i}"), i % 2 == 0, backend.startswith("mem"), races=(i % 20 < 2)) for i in range(n)]
+        seqs = [gen_sequence(rng.fork(f"{backend}{i}"), i % 2 == 0, backend.startswith("mem"), races=(i % 20 in (1, 2))) for i in range(n)]
         lines = [l for s in seqs for l in s]
         impl, model = run_chain(backend, lines, ctx["model_ok"])
         total += len(lines)
@@ -220,9 +249,11 @@ def explore(ctx, res):
                 dist[k] = dist.get(k, 0) + 1
             if outs.count("ok") > 2:
                 nontriv.add((backend, tuple(s)))
-            why = oracle_seq(s, outs, window=(int(backend[3:]) if backend.startswith("mem") and len(backend) > 3 else (2000 if backend == "mem" else None)))
+            why = oracle_seq(s, outs, window=window_of(backend))
             if why:
-                res.add_violation({"engine": "chain", "backend": backend, "kind": "impl-violates", "ops": s, "observed": outs, "oracle": why})
+                small, souts, swhy = shrink(backend, s, window_of(backend))
+                res.add_violation({"engine": "chain", "backend": backend, "kind": "impl-violates", "ops": small, "observed": souts,
+                                   "oracle": swhy or why})
                 break
             if model is not None:
                 mo = model[i:i + len(s)]
